@@ -80,3 +80,14 @@ func (s *StateDB) VerifLeaf(addr common.Address) (Account, bool) {
 	}
 	return data, true
 }
+
+// VerifManagedAccount reports the unexported nonce bookkeeping of a ManagedState for addr.
+func (ms *ManagedState) VerifManagedAccount(addr common.Address) (present bool, nstart uint64, nonces []bool) {
+	ms.mu.RLock()
+	defer ms.mu.RUnlock()
+	a, ok := ms.accounts[addr]
+	if !ok {
+		return false, 0, nil
+	}
+	return true, a.nstart, append([]bool{}, a.nonces...)
+}
